@@ -4,6 +4,7 @@ import (
 	"context"
 	"fmt"
 	"math/big"
+	"strings"
 	"sync"
 
 	storageerrors "github.com/formancehq/ledger/internal/storage/sqlutils"
@@ -21,6 +22,21 @@ import (
 type Parameters struct {
 	DryRun         bool
 	IdempotencyKey string
+}
+
+// storedText is a piece of request text as a log entry will hold it. Entries are
+// kept as JSON, and the JSON encoder replaces bytes that are not valid UTF-8 by
+// U+FFFD: text that does not arrive as JSON (the Idempotency-Key header, what
+// is taken from the path of a URL) is brought to that form before it is used,
+// so that look-ups, the hash, the events and the stored entry all see the same
+// string.
+func storedText(s string) string {
+	return strings.ToValidUTF8(s, "\uFFFD")
+}
+
+func (p Parameters) normalized() Parameters {
+	p.IdempotencyKey = storedText(p.IdempotencyKey)
+	return p
 }
 
 type Commander struct {
@@ -76,6 +92,7 @@ func (commander *Commander) GetLedgerStore() Store {
 func (commander *Commander) exec(ctx context.Context, parameters Parameters, script ledger.RunScript,
 	logComputer func(tx *ledger.Transaction, accountMetadata map[string]metadata.Metadata) *ledger.Log) (*ledger.ChainedLog, error) {
 
+	parameters = parameters.normalized()
 	if script.Script.Plain == "" {
 		return nil, NewErrNoScript()
 	}
@@ -197,6 +214,10 @@ func (commander *Commander) CreateTransaction(ctx context.Context, parameters Pa
 }
 
 func (commander *Commander) SaveMeta(ctx context.Context, parameters Parameters, targetType string, targetID interface{}, m metadata.Metadata) error {
+	parameters = parameters.normalized()
+	if address, ok := targetID.(string); ok {
+		targetID = storedText(address)
+	}
 	execContext := newExecutionContext(commander, parameters)
 	chainedLog, err := execContext.run(ctx, func(executionContext *executionContext) (*ledger.ChainedLog, chan struct{}, error) {
 		var (
@@ -337,6 +358,11 @@ func (commander *Commander) peekTXID() *big.Int {
 }
 
 func (commander *Commander) DeleteMetadata(ctx context.Context, parameters Parameters, targetType string, targetID any, key string) error {
+	parameters = parameters.normalized()
+	key = storedText(key)
+	if address, ok := targetID.(string); ok {
+		targetID = storedText(address)
+	}
 	execContext := newExecutionContext(commander, parameters)
 	chainedLog, err := execContext.run(ctx, func(executionContext *executionContext) (*ledger.ChainedLog, chan struct{}, error) {
 		var (
